@@ -337,7 +337,13 @@ impl fmt::Display for MigrationAction {
             MigrationAction::RawSql { sql } => {
                 // Truncate SQL if too long for display
                 let display_sql = if sql.len() > 50 {
-                    format!("{}...", &sql[..47])
+                    // Cut at a char boundary at or below byte 47 (slicing inside a
+                    // multi-byte character would panic).
+                    let mut end = 47;
+                    while !sql.is_char_boundary(end) {
+                        end -= 1;
+                    }
+                    format!("{}...", &sql[..end])
                 } else {
                     sql.clone()
                 };
